@@ -160,6 +160,10 @@ def run_kani(crate, filters, harness_timeout=300, jobs=14, overall_timeout=7200,
         "--output-into-files",
         "-j",
         str(jobs),
+        # CBMC's float NaN/overflow, conversion and shift checks are not Rust
+        # panics (they were filtered out anyway); Rust's own overflow and
+        # bounds panics are compiled-in assertions and stay
+        "--no-overflow-checks",
     ]
     for f in filters:
         cmd += ["--harness", f]
